@@ -229,6 +229,36 @@ pub fn run(ctx: &Ctx) -> Rep {
                 );
             }
         }
+        // ... and the enumeration has no other member: the positions (discriminants) of the classes reached
+        // from values are exactly 0 .. position of Invalid, which is the last member - so a class that is the
+        // class of no value (an extra or orphaned variant) leaves a hole. Same for the ten categories.
+        {
+            let seen_c: std::collections::BTreeSet<usize> = (1..=7462u16).map(|v| HandRank::from(v).class as usize).collect();
+            let seen_n: std::collections::BTreeSet<usize> = (1..=7462u16).map(|v| HandRank::from(v).name as usize).collect();
+            let (inv_c, inv_n) = (HandRank::from(0).class as usize, HandRank::from(0).name as usize);
+            let holes_c: Vec<usize> = (0..inv_c).filter(|d| !seen_c.contains(d)).collect();
+            let holes_n: Vec<usize> = (0..inv_n).filter(|d| !seen_n.contains(d)).collect();
+            rep.evaluations += 2;
+            rep.add("class_enumeration_positions_before_Invalid", inv_c as u64);
+            if !holes_c.is_empty() || seen_c.iter().any(|&d| d >= inv_c) {
+                rep.violation(
+                    "each non-Invalid class of the enumeration is the class of some value (no member without a value range)",
+                    "HandRankClass",
+                    Input::None,
+                    format!("positions 0..{} all reached from values 1..=7462", inv_c),
+                    format!("{} reached; positions never reached: {:?}", seen_c.len(), holes_c),
+                );
+            }
+            if !holes_n.is_empty() || seen_n.iter().any(|&d| d >= inv_n) {
+                rep.violation(
+                    "each non-Invalid category of the enumeration is the category of some value",
+                    "HandRankName",
+                    Input::None,
+                    format!("positions 0..{} all reached from values 1..=7462", inv_n),
+                    format!("{} reached; positions never reached: {:?}", seen_n.len(), holes_n),
+                );
+            }
+        }
         let non_invalid = ranges.keys().filter(|k| k.as_str() != "Invalid").count();
         if non_invalid != 309 && rep.violations == 0 {
             rep.violation(
